@@ -94,7 +94,7 @@ def native(text):
     return text
 
 
-def build_kw(node, schema, nat=False):
+def build_kw(node, schema, nat=False, none=False):
     """keyword-construction route: builds the instance bottom-up with Cls(*members, **children);
     leaf values are passed as texts (the converters accept them) or, with nat, as native values"""
     import ofxtools.models as M
@@ -107,14 +107,14 @@ def build_kw(node, schema, nat=False):
         a = attrs.get(k[0])
         if a is None:
             name = k[0].lower()
-            val = k[1] if k[1] is not None else build_kw(k, schema, nat) if hasattr(M, k[0]) else None
+            val = k[1] if k[1] is not None else build_kw(k, schema, nat, none) if hasattr(M, k[0]) else None
             if name in kwargs:
                 raise KwRouteNotApplicable("duplicate keyword")
             kwargs[name] = val
             continue
         if a["k"] == "unsup":
             continue
-        val = k[1] if k[1] is not None else build_kw(k, schema, nat)
+        val = k[1] if k[1] is not None else build_kw(k, schema, nat, none)
         if nat and k[1] is not None and a["k"] in ("elem", "lelem"):
             val = native(k[1])
             if a["ty"] and isinstance(val, int) and TYPES[int(a["ty"][1:])]["k"] not in ("int", "dec"):
@@ -128,6 +128,11 @@ def build_kw(node, schema, nat=False):
             if a["a"] in kwargs:
                 raise KwRouteNotApplicable("duplicate keyword")
             kwargs[a["a"]] = val
+    if none:
+        # a caller may spell out absent children as None
+        for a in schema[tag]["attrs"]:
+            if a["k"] in ("elem", "sub") and a["a"] not in kwargs:
+                kwargs[a["a"]] = None
     return cls(*args, **kwargs)
 
 
@@ -169,7 +174,7 @@ def ev_doc(eid, doc, schema, route="etree", label="", expect="", twin=None):
                 b.feed(render_text(doc, route))
                 inst = Aggregate.from_etree(b.close())
             else:
-                inst = build_kw(to_nested(doc), schema, nat=(route == "kwnative"))
+                inst = build_kw(to_nested(doc), schema, nat=(route == "kwnative"), none=(route == "kwnone"))
             out = {"ok": True, "inst": project_inst(inst, schema), "exc": ""}
         except KwRouteNotApplicable:
             return None
